@@ -808,6 +808,43 @@ void float_mod()
     }
 }
 
+// mod for the other floating point types: float and long double (80-bit here: values that are not doubles), against the
+// std::fmod overload of the same type; div against the same type's division
+template <class F>
+void float_mod_other(char const *fname)
+{
+  std::string e = std::string("mod<") + fname + ">";
+  if (!vf::entry_enabled(e) || !vf::mine(vf::hash_str(e)))
+    return;
+  vf::set_entry(e);
+  if (!vf::begin_case("lattice x lattice"))
+    return;
+  vf::note_distinct(vf::hash_str(e));
+  F const big = std::ldexp(F(1), std::numeric_limits<F>::digits - 1); // 2^(digits-1): big + 1 is still exact
+  std::vector<F> v{F(0),  -F(0),  F(1),   F(-1),      F(0.5),     F(2.5),      F(-2.5),       F(3),  F(10), F(7),
+                   big,   big + F(1), -(big + F(1)), big * F(2) - F(1), std::numeric_limits<F>::max(), std::numeric_limits<F>::min(), std::numeric_limits<F>::denorm_min(),
+                   std::numeric_limits<F>::infinity()};
+  for (F a : v)
+    for (F b : v)
+    {
+      auto const r = fcppt::math::mod(a, b);
+      vf::add_evals(1);
+      if (b == F(0))
+      {
+        if (r.has_value())
+          vf::violation(e + "/zero-divisor", "mismatch", "value for zero divisor");
+      }
+      else
+      {
+        F const w = std::fmod(a, b);
+        bool const same = r.has_value() && ((std::isnan(w) && std::isnan(r.get_unsafe())) || (w == r.get_unsafe() && std::signbit(w) == std::signbit(r.get_unsafe())));
+        if (!same)
+          vf::violation(e + "/value", "mismatch", "differs from std::fmod of the same type for " + std::to_string(static_cast<long double>(a)) + "," + std::to_string(static_cast<long double>(b)));
+        VF_COUNT("mod-float/other-types");
+      }
+    }
+}
+
 #ifndef VF_SLICE
 #define VF_SLICE -2 // single translation unit build: everything
 #endif
@@ -875,6 +912,8 @@ void vf_slice_5()
   signed_fns<std::int32_t>();
   signed_fns<std::int64_t>();
   float_mod();
+  float_mod_other<float>("float");
+  float_mod_other<long double>("long double");
   observe_interval_distance();
 }
 #endif
